@@ -415,7 +415,13 @@ func (s *Service) buildAccept(hash bitcoin.Hash32, mode string) *client.AcceptRe
 	if err != nil {
 		return nil
 	}
-	acc := &client.AcceptRegister{Key: sess.PublicKey(), PushDataCount: 3, UTXOCount: 2, MessageCount: 7}
+	// counts of a new client (all zero), equal counts, and unequal ones
+	t := s.cs.c.Scen
+	acc := &client.AcceptRegister{Key: sess.PublicKey(), PushDataCount: uint64(t.Choose(4)), MessageCount: uint64(t.Choose(9))}
+	acc.UTXOCount = acc.PushDataCount
+	if t.Bool(1, 2) {
+		acc.UTXOCount = uint64(t.Choose(4))
+	}
 	signer := sess
 	signHash := hash
 	switch mode {
